@@ -131,7 +131,10 @@ def run(chk):
     # 4. random compound units on either side (direct)
     for _ in range(400 if quick else 4000):
         ua = gen.unit()
-        ub = gen.unit_of_dim(tbl.dim(ua))
+        if len(ua) >= 2 and rng.random() < 0.2:
+            ub = list(reversed(ua))          # the same unit with its factors in another order
+        else:
+            ub = gen.unit_of_dim(tbl.dim(ua))
         if ub is None or qtylib.range_risk(tbl, ("conv", ("lit", qtylib.f2bits(1.0), ua), ub), 200):
             continue
         conv_case("compound", mags(rng)[1], ua, ub, tv=rng.choice([1.0, 1.0, 3.0]))
